@@ -109,6 +109,10 @@ pub struct RecPrinter {
     records: usize,
 }
 
+impl RecPrinter {
+    pub fn new(running: Arc<AtomicBool>, stop_after: Option<usize>) -> RecPrinter { RecPrinter { lines: Vec::new(), stop_after, running, records: 0 } }
+}
+
 impl Printer for RecPrinter {
     fn println(&mut self, line: &str) {
         self.lines.push(line.to_owned());
@@ -131,7 +135,7 @@ pub fn run_executor(tables: &Tables, stmt: &Statement, paths: &[PathBuf], format
     let r = guard(|| -> Result<(), String> {
         let mut files = Vec::new();
         for p in paths { files.push(File::open(p).map_err(|e| format!("open {}: {}", p.display(), e))?); }
-        let printer = RecPrinter { lines: Vec::new(), stop_after, running: running.clone(), records: 0 };
+        let printer = RecPrinter::new(running.clone(), stop_after);
         let opts = DisplayOptions { output_format: format_of(format), single_result, print_result: true };
         let mut ex = FileExecutor::with_output_printer(running.clone(), files, opts, printer, ExecutionEngine::new(tables, stmt)).map_err(|e| format!("{}", e))?;
         let res = ex.execute();
